@@ -19,6 +19,7 @@
 #include <sys/mman.h>
 #include <sys/stat.h>
 #include <sys/time.h>
+#include <time.h>
 #include <sys/wait.h>
 #include <unistd.h>
 
@@ -247,7 +248,8 @@ struct WorkerShm {
   volatile uint64_t nhash;  // number of hashes appended to this worker's segment
   volatile uint64_t cur_item, wants_in_item;  // resume information after a crash
   volatile int item_active;
-  volatile double case_t0;   // when the current case began (hang watchdog)
+  volatile double case_t0;   // when the current case began (hang watchdog: wall clock)
+  volatile double case_cpu0; // CPU time this worker had consumed when the current case began (hang watchdog: CPU clock)
   volatile int hung;         // set by the parent when it kills this worker for exceeding the per-case limit
 };
 struct GlobalShm {
@@ -328,6 +330,7 @@ struct Ctx {
     strncpy(s.cur, id.c_str(), sizeof s.cur - 1);
     s.cur[sizeof s.cur - 1] = 0;
     s.case_t0 = now();
+    { struct timespec ts; clock_gettime(CLOCK_PROCESS_CPUTIME_ID, &ts); s.case_cpu0 = (double)ts.tv_sec + 1e-9 * (double)ts.tv_nsec; }
     s.in_case = 1;
   }
   // nontrivial: by the check's stated rule
@@ -404,8 +407,17 @@ struct Ctx {
       pid_t p = waitpid(-1, &st, WNOHANG);
       if (p == 0) {  // nobody exited: hang watchdog, then sleep a little
         const double lim = args.case_limit_s * (args.replaying() ? 1.5 : 1);  // a replay runs the case alone with a longer limit before it is called a hang
-        for (int j = 0; j < nproc; ++j)
-          if (pid[j] > 0 && w[j].in_case && !w[j].hung && now() - w[j].case_t0 > lim) { w[j].hung = 1; kill(pid[j], SIGKILL); }
+        // the limit is on the CPU time the worker has spent inside the case (a worker that is merely starved on a busy machine is not
+        // hanging; the library has no blocking primitive, so a call that does not return spins); 10 x the limit of wall time is the backstop
+        for (int j = 0; j < nproc; ++j) {
+          if (!(pid[j] > 0 && w[j].in_case && !w[j].hung)) continue;
+          const double wall = now() - w[j].case_t0;
+          if (wall <= lim) continue;
+          double cpu = wall;
+          clockid_t cid; struct timespec ts;
+          if (clock_getcpuclockid(pid[j], &cid) == 0 && clock_gettime(cid, &ts) == 0) cpu = (double)ts.tv_sec + 1e-9 * (double)ts.tv_nsec - w[j].case_cpu0;
+          if (cpu > lim || wall > 10 * lim) { w[j].hung = 1; kill(pid[j], SIGKILL); }
+        }
         usleep(20000);
         continue;
       }
@@ -423,7 +435,7 @@ struct Ctx {
         w[k].hung = 0;
         if (!w[k].in_case) machinery_error("worker died outside any case: %s (%s)", how.c_str(), phase);
         int save = me; me = k;
-        violation(id, hung ? sfmt("the call did not return within %.0f s (the case normally takes far less): non-termination", args.case_limit_s * (args.replaying() ? 1.5 : 1))
+        violation(id, hung ? sfmt("the call did not return within %.0f s of CPU time (the case normally takes far less): non-termination", args.case_limit_s * (args.replaying() ? 1.5 : 1))
                            : "the call crashed: " + how);
         my().evals++;
         my().in_case = 0;
